@@ -59,6 +59,27 @@ def check_couple(ctx: Context, rep, rule: str) -> None:
     resets = [n for n in cfg.nodes if (n.kind == "stmt" and
                                        resets_counter(n.ast)) or (
         n.kind == "call" and helper_assigns(ctx, we, n.ast, resets_counter))]
+    # once the previous shard is closed the filler's registry must stop
+    # naming it before the (rejectable) write is attempted: every path from a
+    # close site to the shard write passes an update of the registry (the
+    # record's `.shard`, or the registry entry itself)
+    def registry_store(st):
+        return isinstance(st, ast.Assign) and any(
+            isinstance(t, ast.Subscript) and (dotted(t.value) or "").endswith(
+                "_current_shards_progress") for t in st.targets)
+
+    updates = opens + [n for n in cfg.nodes if n.kind == "stmt" and
+                       registry_store(n.ast)]
+    for cs in close_sites:
+        after_c = cfg.reachable([cs], avoiding=updates, strict=True, follow=norm)
+        stale = [w for w in writes if w in after_c]
+        rep.ob(rule, not stale, loc=we.loc(cs.ast), where=we.qualname,
+               construct="close_shard ... <registry update> ... shard.write",
+               message="after the previous shard is closed the progress "
+               "registry must point at the new shard before the write is "
+               "attempted (a rejected write would leave the closed shard "
+               "registered: every later write and __exit__ fail)",
+               path=cfg.describe_path(cfg.path_to(stale[0])) if stale else "")
     if not opens:
         raise AnalysisError("C10.couple: no shard rebinding in write_example")
     for o in opens:
@@ -418,8 +439,9 @@ def run(ctx: Context, rep) -> None:
     check_close_order(ctx, rep, "C10.order")
     from sa.rules import shared as _sh
     _sh.check_label_copy(ctx, rep, "C10.label-copy")
-
-
+    # nothing read from the dataset's files / the environment is memoised
+    from sa.rules import shared as _shm
+    _shm.check_no_memo(ctx, rep, "C10.memo")
 
 _P = "src/sedpack/io/dataset_filler.py"
 SELFTESTS = [
